@@ -49,9 +49,11 @@ def _types(cluster):
     return [t for t in CLUSTERS[cluster]["types"] if t in pools.TYPES]
 
 
-def gen_program(rng, cluster, n_ops, first=None, about=()):
-    """about: types the retort's recipe is about (a share of the ops is steered towards them)"""
+def gen_program(rng, cluster, n_ops, first=None, about=(), derive=False):
+    """about: types the retort's recipe is about (a share of the ops is steered towards them); derive: the
+    program may replace()/extend() the shared retort"""
     prog = []
+    n_handles = 1
     n_callables = 0
     callable_kinds = []
     for i in range(n_ops):
@@ -59,6 +61,15 @@ def gen_program(rng, cluster, n_ops, first=None, about=()):
             op = dict(first)
         else:
             r = rng.random()
+            if derive and rng.random() < 0.10:
+                # derive a retort from the shared one while other threads are using it; later ops may use the clone
+                op = ({"op": "replace", "h": 0, "opts": rng.choice([{"strict_coercion": False}, {"debug_trail": "FIRST"},
+                                                                     {"strict_coercion": True, "debug_trail": "DISABLE"}])}
+                      if rng.random() < 0.5 else {"op": "extend", "h": 0, "recipe": rng.choice(["nm_camel", "chain_int_last",
+                                                                                                 "validator_inner"])})
+                n_handles += 1
+                prog.append(op)
+                continue
             t = rng.choice(_types(cluster)) if rng.random() > 0.07 else rng.choice(["Unsupported", "ListUnsupported", "CallableT"])
             if about and rng.random() < 0.4:
                 t = rng.choice(about)
@@ -68,13 +79,13 @@ def gen_program(rng, cluster, n_ops, first=None, about=()):
                 op = ({"op": "call", "c": c, "d": rng.choice(pools.battery(ct)[:4])} if k == "get_loader"
                       else {"op": "call", "c": c, "o": rng.choice(pools.dump_battery(ct))})
             elif r < 0.55:
-                op = {"op": "load", "h": 0, "t": t, "d": rng.choice(pools.battery(t)[:3])}
+                op = {"op": "load", "h": rng.randrange(n_handles), "t": t, "d": rng.choice(pools.battery(t)[:3])}
             elif r < 0.70:
-                op = {"op": "get_loader", "h": 0, "t": t}
+                op = {"op": "get_loader", "h": rng.randrange(n_handles), "t": t}
             elif r < 0.92:
-                op = {"op": "dump", "h": 0, "t": t, "o": rng.choice(pools.dump_battery(t))}
+                op = {"op": "dump", "h": rng.randrange(n_handles), "t": t, "o": rng.choice(pools.dump_battery(t))}
             else:
-                op = {"op": "get_dumper", "h": 0, "t": t}
+                op = {"op": "get_dumper", "h": rng.randrange(n_handles), "t": t}
         if op["op"] in ("get_loader", "get_dumper"):
             n_callables += 1
             callable_kinds.append((op["op"], op["t"]))
@@ -171,7 +182,8 @@ def gen(seed, cfg=None):
             handle["recipe"] = rng.choice(CLUSTERS[cluster]["recipes"])
         about = [t for t in pools.RECIPE_TYPES.get(handle["recipe"], []) if t in pools.TYPES]
         first = gen_program(rng, cluster, 1, about=about)[0] if same_first else None
-        programs = [gen_program(rng, cluster, rng.choice([1, 1, 2, 3, 4]), first, about) for _ in range(n_threads)]
+        programs = [gen_program(rng, cluster, rng.choice([1, 1, 2, 3, 4]), first, about, derive=(base == "Retort"))
+                    for _ in range(n_threads)]
     prologue = []
     if cluster != "conv" and rng.random() < 0.15:
         # call race: the loader / dumper exists already (warm retort), the threads only *call* it, so every
@@ -399,6 +411,10 @@ def execute(scn, refs):  # noqa: C901, PLR0912, PLR0915
                     violations.append({"class": "op-missing", "thread": t, "op_index": i, "op": op})
                     break
                 obs = results[t][i]
+                if op["op"] in ("replace", "extend") and obs[0] != "handle":
+                    violations.append({"class": "unexpected-exception", "phase": "concurrent", "thread": t, "op_index": i,
+                                       "op": op, "expected": ["handle"], "observed": obs})
+                    continue
                 if d is None or obs == ["skipped"]:
                     continue
                 exp = refs[canon(d)]
